@@ -4,7 +4,7 @@
    measure_number_map / metrical_position_map of partitura/score.py; the same definitions are evaluated
    on every generated part by the correspondence check.
    in_force tbl t v  :=  (k, v) is the entry of tbl with the greatest start k <= t  (Model/C02.v). *)
-From PV Require Import Lib.Base Lib.Round Model.C02 Model.C10 Model.C10_Impl Gen.C10_Tab Proofs.C02_lib Proofs.C10 Proofs.C10_Impl Proofs.C10_Bar.
+From PV Require Import Lib.Base Lib.Round Model.C02 Model.C10 Model.C10_Impl Gen.C10_Tab Proofs.C02_lib Model.C10_Hist Proofs.C10 Proofs.C10_Impl Proofs.C10_Bar Proofs.C10_Hist.
 From Coq Require Import QArith.
 #[local] Open Scope Z_scope.
 
@@ -364,3 +364,53 @@ Theorem example_full_bar :
   exists fb, full_bar ex10 0 = Some fb /\ (fb == 16)%Q.
 Proof. exact Proofs.C10_Bar.ex10_full_bar. Qed.
 Print Assumptions example_full_bar.
+
+(* --- histories (state carried between calls; Model/C10_Hist.v): a caller keeps map objects, queries them with scalars
+   and vectors, overwrites the arrays it got back in place, edits the part, requests maps again.  For ANY such history
+   (rows = the table built from the part on access: ts_rows, ks_rows, meas_xy/num_xy of meas_tbl, a staff's clef_rows)
+   the observations are those of `hspec`: a query through map object i = the wrapper over the table of the part as it
+   was when object i was requested -- earlier queries, writes into returned arrays, other map objects and later edits
+   do not matter *)
+Theorem history_spec : forall (P A : Type) (rows : P -> list (Z * A)) p ops,
+  hrun rows false false (hinit p) ops = hspec rows p [] ops.
+Proof. exact @Proofs.C10_Hist.history_spec. Qed.
+Print Assumptions history_spec.
+
+(* observation = f (current state): after any history, the map requested now answers for the part as it is now *)
+Theorem history_current : forall (P A : Type) (rows : P -> list (Z * A)) p ops q,
+  hrun rows false false (hinit p) (ops ++ [HGet; HQuery (hgets ops) q]) =
+  hrun rows false false (hinit p) ops ++ [wrap_prev (rows (hcur p ops)) q].
+Proof. exact @Proofs.C10_Hist.history_current. Qed.
+Print Assumptions history_current.
+
+Theorem history_ks_current : forall cp ops q, q_ge (c_first (hcur cp ops)) q ->
+  hrun ks_rows false false (hinit cp) (ops ++ [HGet; HQuery (hgets ops) q]) =
+  hrun ks_rows false false (hinit cp) ops ++ [lift (ks_map (hcur cp ops)) q].
+Proof. exact Proofs.C10_Hist.history_ks_current. Qed.
+Print Assumptions history_ks_current.
+
+Theorem history_ts_current : forall cp ops q, q_ge (c_first (hcur cp ops)) q ->
+  hrun ts_rows false false (hinit cp) (ops ++ [HGet; HQuery (hgets ops) q]) =
+  hrun ts_rows false false (hinit cp) ops ++ [lift (ts_map (hcur cp ops)) q].
+Proof. exact Proofs.C10_Hist.history_ts_current. Qed.
+Print Assumptions history_ts_current.
+
+(* the two ways such code goes wrong are expressible and refuted: the scalar result of the single-sample branch as a
+   writable view of the map object's sample row (alias), the table cached on the part at the first access (memo) *)
+Theorem history_alias_refuted :
+  let ops := [HGet; HQuery 0 (QScalar 0); HWrite 0 (-1, 1); HQuery 0 (QScalar 5); HQuery 0 (QVec [7; 2])] in
+  hrun ks_rows false true (hinit ex10_oneks) ops =
+    [RScalar (Some (-3, -1)); RScalar (Some (-1, 1)); RVec [Some (-1, 1); Some (-1, 1)]] /\
+  hspec ks_rows ex10_oneks [] ops =
+    [RScalar (Some (-3, -1)); RScalar (Some (-3, -1)); RVec [Some (-3, -1); Some (-3, -1)]] /\
+  hrun ks_rows false false (hinit ex10_oneks) ops = hspec ks_rows ex10_oneks [] ops.
+Proof. exact Proofs.C10_Hist.history_alias_refuted. Qed.
+Print Assumptions history_alias_refuted.
+
+Theorem history_memo_refuted :
+  let ops := [HGet; HQuery 0 (QScalar 3); HEdit ex10_otherks; HGet; HQuery 1 (QScalar 3)] in
+  hrun ks_rows true false (hinit ex10_oneks) ops = [RScalar (Some (-3, -1)); RScalar (Some (-3, -1))] /\
+  hspec ks_rows ex10_oneks [] ops = [RScalar (Some (-3, -1)); RScalar (Some (4, 1))] /\
+  hrun ks_rows false false (hinit ex10_oneks) ops = hspec ks_rows ex10_oneks [] ops.
+Proof. exact Proofs.C10_Hist.history_memo_refuted. Qed.
+Print Assumptions history_memo_refuted.
